@@ -39,7 +39,15 @@ pub fn property_of(c: Clause, scn: &Scenario) -> &'static str {
         Clause::KeyModel => "C06",
         Clause::DupVerdict => "C07",
         Clause::OrderConflict | Clause::UnitSplit => "C08",
-        Clause::RetryHoldWait | Clause::NoProgress => "C09",
+        // (with a raw-lock fault in play, not finishing is about what the faulted lock does to
+        // later acquisitions, which is C12's subject, not contention)
+        Clause::RetryHoldWait | Clause::NoProgress => {
+            if raw {
+                "C12"
+            } else {
+                "C09"
+            }
+        }
         Clause::PoisonModel | Clause::PlainKilled => "C10",
         Clause::LeakAfterUserPanic | Clause::PayloadLost | Clause::KeyLostAfterPanic => "C11",
         Clause::RawLeak | Clause::RawPanicLost | Clause::FaultedUsable | Clause::RawDoubleRelease | Clause::RawCollateralKill => "C12",
